@@ -521,6 +521,14 @@ def numpy_ns(**extra):
         flat_v = list(_flat(v)) if isinstance(v, list) else [v]
         return NDArr(flat_a + flat_v)        # without an axis both operands are flattened
 
+    def diff(a, **kw):
+        if kw:
+            raise ModelError('ndarr: np.diff keywords')
+        a = _raw(a)
+        if not isinstance(a, list) or _depth(a) != 1:
+            raise ModelError('ndarr: np.diff of another operand than a one-dimensional array')
+        return NDArr([_sub(y, x) for x, y in zip(a, a[1:])])
+
     def flatnonzero(a):
         return NDArr([i for i, x in enumerate(_flat(_raw(a))) if x])
 
@@ -570,7 +578,7 @@ def numpy_ns(**extra):
 
     def full_(shape, v, **kw):
         return _full(shape, v)
-    fns = dict(append=append, choose=choose, where=where, arange=arange, concatenate=concatenate, flatnonzero=flatnonzero, zeros=zeros, ones=ones, full=full,
+    fns = dict(append=append, diff=diff, choose=choose, where=where, arange=arange, concatenate=concatenate, flatnonzero=flatnonzero, zeros=zeros, ones=ones, full=full,
                zeros_like=zeros_like, full_like=full_like, array=array, asarray=array, hstack=concatenate, expand_dims=expand_dims,
                logical_not=un(lambda x: not x), logical_and=bi(lambda x, y: bool(x) and bool(y)), logical_or=bi(lambda x, y: bool(x) or bool(y)),
                logical_xor=bi(lambda x, y: bool(x) != bool(y)), minimum=bi(min), maximum=bi(max),
